@@ -133,6 +133,14 @@ DumpSizesQ == {<<3, 3>>}
 DumpResizes(t) == {}
 DumpFills == {<<>>, <<65, 65, 65, 65, 13, 10, 66>>}
 
+\* ------------------------------------------------------------- C18: tab stops x widths
+TabsAlphabet(t) ==
+     {F0("Hts"), F0("Ht"), F1("Cbt", 1), F1("Cht", 2), F1("Tbc", 0), F1("Tbc", 3), F1("Ctc", 0), F1("Ctc", 2), F0("Cr")}
+  \cup {F1("Cha", k) : k \in {n \in {2, 8, 9, t.cols - 1, t.cols} : n >= 1}}
+TabsSizes == {<<w, 1>> : w \in {1, 7, 8, 9, 16, 17}}
+TabsResizes(t) == {<<w, 1>> : w \in {1, 7, 8, 9, 15, 16, 17, 24, 25, 32} \ {t.cols}}
+
+\* ------------------------------------------------------------- C10: reflow
 ReflowAlphabet(t) ==
      {F1("Print", c) : c \in {97, 32}} \cup {F0("Cr"), F0("Lf"), F1("El", 0), F1("El", 1), F1("Ech", 1), F1("Dch", 1)}
   \cup {F1("Cuu", 1), F1("Cuf", 1), F1("Cub", 1), FS("Sgr", <<<<48, 4>>>>), FS("Sgr", <<<<0, 0>>>>)}
